@@ -111,4 +111,3 @@ func cmdVerify(args []string) {
 		os.Exit(1)
 	}
 }
-
